@@ -26,6 +26,10 @@ TRUSTED = ['CPython frame.f_locals / eval / id() semantics; str()/len()/tuple() 
            'harness/props/collector_common.py: object builder, raw-fact walker (describe_heap), reference levels']
 ASSUMPTIONS = ['limits are non-negative integers; negative ints (search stops before the root / text sliced from the end) and '
                'non-integers (the comparison raises, no snapshot) are outside the statement: labelled stream limits-outside, recorded only',
+               'the time budget MAX_TP_PROCESS_TIME is an int of magnitude below 2^32 ms (C05.BudgetInRange: where the exact division of the '
+               'model stands for float division — argued on paper, not machine-checked); other budgets a directly constructed config can '
+               'hold (0.5, True, nan, inf: other arithmetic; a str or None: TypeError out of _process_frame, no snapshot; 10^13: float '
+               'rounding) are outside the model: labelled stream budget-outside, recorded only',
                'the per-trigger time budget (MAX_TP_PROCESS_TIME): the clock the frame collector reads is scripted (value per read); '
                'the model decides from the same script which frames are collected and how often the clock is read; time spent '
                'inside one frame is never checked by the code (not a claim)',
@@ -40,7 +44,16 @@ def gen(rng, tier):
         k += 1
         r = rng.random()
         n = rng.choice([120, 250, 400]) if big and rng.random() < 0.1 else None
-        if k % 97 == 0:
+        if k % 89 == 0:
+            # time budgets outside the domain of the model (not an int of magnitude < 2^32): what the code does is recorded
+            c = cc.gen_clock(rng)
+            c['stream'] = 'budget-outside'
+            c['actions'] = c['actions'][:1]
+            c['actions'][0].pop('max_ms', None)
+            c['actions'][0]['raw_max_ms'] = rng.choice([0.5, 99.9999995, True, 'float:nan', 'float:inf', 'str:100', 'none', [100],
+                                                        10 ** 13])
+            yield c
+        elif k % 97 == 0:
             # limit values outside the domain (negative ints, text): what the code does is recorded, not judged
             c = cc.gen_case(rng, nobj=rng.choice([6, 10]), watches=False, stream='limits-outside')
             key = rng.choice(['MAX_VARIABLES', 'MAX_STRING_LENGTH', 'MAX_COLLECTION_SIZE', 'MAX_VAR_DEPTH'])
@@ -105,7 +118,7 @@ def oracle(case, obs):
         raise core.Infra('oracle called without the live objects of its evaluation')
     if case.get('kind') == 'race':
         return cc.judge_race(case, obs, live)
-    if any(a.get('raw_limits') for a in case['actions']):
+    if any(a.get('raw_limits') or 'raw_max_ms' in a for a in case['actions']):
         return ['trace_call raised into the host: ' + obs['raised']] if 'raised' in obs else []
     v = []
     if 'raised' in obs:
@@ -119,8 +132,8 @@ def oracle(case, obs):
 
 
 def model_request(case, obs):
-    if any(a.get('raw_limits') for a in case.get('actions', [])):
-        return None           # limits outside the domain of the model (Nat)
+    if any(a.get('raw_limits') or 'raw_max_ms' in a for a in case.get('actions', [])):
+        return None           # limits / time budget outside the domain of the model
     if case.get('kind') == 'race':
         return None           # a schedule of two threads: judged by the oracle (each snapshot against its own limits)
     return cc.model_request(case, obs)
@@ -148,6 +161,8 @@ def hit(case, obs):
 def label(case, obs):
     if case.get('kind') == 'race':
         return 'race/' + ('overlap' if obs.get('overlapped') else 'serial')
+    if any('raw_max_ms' in a for a in case['actions']):
+        return 'budget-outside/%r/snap%d' % (case['actions'][0]['raw_max_ms'], len(obs.get('snapshots', [])))
     if any(a.get('raw_limits') for a in case['actions']):
         rl = case['actions'][0]['raw_limits']
         return 'limits-outside/%s=%r/snap%d' % (list(rl)[0], list(rl.values())[0], len(obs.get('snapshots', [])))
@@ -162,7 +177,7 @@ def label(case, obs):
 def nontrivial(case, obs):
     if case.get('kind') == 'race':
         return bool(obs.get('overlapped'))
-    if any(a.get('raw_limits') for a in case['actions']):
+    if any(a.get('raw_limits') or 'raw_max_ms' in a for a in case['actions']):
         return False
     if case.get('clock'):
         return cc.clock_label(case, obs) in ('cut', 'none')
